@@ -608,7 +608,14 @@ def run(prog, rep):
                                                                       "FD_CLOEXEC via fcntl(F_SETFD) on the success path" if via_fcntl else "") if x))
                if (at_creation or via_fcntl) else
                "the descriptor returned by %s() gets close-on-exec neither at creation nor through fcntl(F_SETFD, ... | FD_CLOEXEC)%s" % (creator, ": " + fmsg if fmsg else ""), c)
-    rep.floor("C10.6", 2)
+        if typearg is not None:
+            # a descriptor that socket() can create with the flag set is created with it: the fcntl route leaves a window between the
+            # two system calls in which a fork + exec in another thread inherits the socket (fork copies the flag per descriptor)
+            rep.ob("C10.6", fn, "cloexec:atomic", at_creation,
+                   "socket() is given SOCK_CLOEXEC: the descriptor never exists without close-on-exec" if at_creation else
+                   "line %d: socket() is called without SOCK_CLOEXEC although the platform provides it; close-on-exec arrives only with a later fcntl, and a "
+                   "fork + exec of another thread between the two calls inherits the socket" % line(c), c)
+    rep.floor("C10.6", 3)
 
 
 def boolean_valued(e, fn, bitfields, _depth=0):
